@@ -9,7 +9,7 @@ say() { echo "$*" | tee -a "$log"; }
 cd "$wt" || { say "no worktree"; exit 2; }
 git checkout -q -- . ; git clean -fdq crates; git checkout -q --detach "$(git -C /repo rev-parse HEAD)"
 say "worktree at $(git rev-parse --short HEAD) (= /repo HEAD)"
-for f in "$sd"/demo/*.rs; do cp "$f" "crates/$crate/tests/"; done
+mkdir -p "crates/$crate/tests"; for f in "$sd"/demo/*.rs; do cp "$f" "crates/$crate/tests/"; done
 tests=$(for f in "$sd"/demo/*.rs; do basename "$f" .rs; done)
 targs=""; for t in $tests; do targs="$targs --test $t"; done
 if cargo test -p "$crate" --offline $targs >>"$log" 2>&1; then say "1. demo passes WITHOUT the patch: yes"; else say "1. demo passes WITHOUT the patch: NO"; fi
